@@ -14,11 +14,11 @@ case "$pkg" in stanza|stanza_test) dir=stanza;; *) dir=.;; esac
 cp "$SRC/demo_test.go" $WT/$dir/zz_seeded_${ID}${V}_test.go
 run=$(grep -o 'func Test[A-Za-z0-9_]*' "$SRC/demo_test.go" | sed 's/func //' | paste -sd'|')
 cd $WT
-go test -vet=off -count=1 -timeout 300s -run "^($run)\$" ./$dir > /tmp/cs.$$.base 2>&1; base=$?
+go test -tags verif -vet=off -count=1 -timeout 300s -run "^($run)\$" ./$dir > /tmp/cs.$$.base 2>&1; base=$?
 git apply "$SRC/patch.diff" 2>/tmp/cs.$$.apply || git apply --3way "$SRC/patch.diff" 2>>/tmp/cs.$$.apply || { echo "$ID$V: patch does not apply"; cat /tmp/cs.$$.apply; exit 3; }
 git diff HEAD --stat -- . ':!*_test.go' | tail -1
 go build ./... > /tmp/cs.$$.build 2>&1; build=$?
-go test -vet=off -count=1 -timeout 300s -run "^($run)\$" ./$dir > /tmp/cs.$$.mut 2>&1; mut=$?
+go test -tags verif -vet=off -count=1 -timeout 300s -run "^($run)\$" ./$dir > /tmp/cs.$$.mut 2>&1; mut=$?
 rm -f $WT/$dir/zz_seeded_${ID}${V}_test.go
 go test -vet=off -count=1 -timeout 25m ./... > /tmp/cs.$$.suite 2>&1; suite=$?
 echo "$ID$V: demo-without=$base build=$build demo-with=$mut suite-with=$suite"
